@@ -15,6 +15,7 @@
 number."""
 
 from __future__ import annotations
+import copy
 import dataclasses
 from pathlib import Path
 from types import TracebackType
@@ -166,9 +167,11 @@ class _DatasetFillerContext:
             current_progress.shard = self._get_new_shard(split=split)
             current_progress.written_examples = 0
 
-        # Update custom_metadata is needed
+        # Update custom_metadata is needed. Keep our own copy so that later
+        # changes of the object by the caller do not change what was recorded.
         if custom_metadata:
-            current_progress.shard.shard_info.custom_metadata = custom_metadata
+            current_progress.shard.shard_info.custom_metadata = copy.deepcopy(
+                custom_metadata)
 
         # Write the current example and update counters.
         current_progress.shard.write(values=values)
